@@ -324,6 +324,17 @@ Proof.
   - unfold with_eff in H1. apply rcase_halt in H1. destruct H1 as [(a0 & s2 & _ & H1)|(c1 & s2 & H1 & H1')]; [discriminate|].
     inversion H1'; subst c0 s0. destruct (forallb harmless [r]); [|discriminate]. inversion H; subst. exact H1.
 Qed.
+Lemma operands_first_halt f ge e r st c s : (forall x, In x r -> pure x = true) ->
+  operands (evals f ge) (e :: r) st = Halt c s -> exists f1, f = S f1 /\ eval f1 ge e (set_cur st eff0) = Halt c s.
+Proof.
+  intros Hp H. unfold operands in H. apply bind_halt in H. destruct H as [H|(L & s1 & _ & H)]; [|destruct (conflicts (map snd L)); discriminate].
+  destruct f as [|f1]; [discriminate|]. exists f1. split; [reflexivity|]. cbn [evals evals_body] in H.
+  apply rcase_halt in H. destruct H as [([v ef] & s1 & H1 & H)|(c0 & s0 & H1 & H)].
+  - exfalso. apply rcase_halt in H. destruct H as [(L & s2 & _ & H)|(c1 & s2 & H2 & _)]; [discriminate|].
+    refine (evals_no_halt ge r _ f1 s1 c1 s2 H2). intros e0 Hin. exact (pure_no_halt ge e0 (Hp e0 Hin)).
+  - unfold with_eff in H1. apply rcase_halt in H1. destruct H1 as [(a0 & s2 & _ & H1)|(c1 & s2 & H1 & H1')]; [discriminate|].
+    inversion H1'; subst c0 s0. destruct (forallb harmless r); [|discriminate]. inversion H; subst. exact H1.
+Qed.
 Lemma operands_left_ret f ge l r st vs s : operands (evals f ge) [l; r] st = Ret vs s ->
   exists f1 vl sl f2 vr st2 sr, f = S f1 /\ eval f1 ge l (set_cur st eff0) = Ret vl sl /\
     same_store sl st2 /\ eval f2 ge r st2 = Ret vr sr /\ same_store sr s /\ vs = [vl; vr].
